@@ -45,6 +45,7 @@ func main() {
 	signedhalf := fs.Bool("signedhalf", false, "every second history runs in signed mode")
 	minthalf := fs.Bool("minthalf", false, "every second history starts minting in its first block")
 	only := fs.Int("only", 0, "run only this history (1-based)")
+	valslash := fs.Bool("valslash", false, "validators are slashed for infractions (SDK staking Slash) as environment events")
 	fanout := fs.Bool("fanout", false, "every fourth history starts with a dispute story whose fee is paid twice from the bond of the reporter with most selectors")
 	mintinit := fs.Bool("mintinit", false, "governance starts minting in the bootstrap block")
 	_ = fs.Parse(os.Args[2:])
@@ -80,7 +81,7 @@ func main() {
 	case "hist":
 		err = h.RunHist(*trace, *stats, h.HistDriverOpts{N: *n, Seed: *seed, Proj: *proj, Only: *only, SignedHalf: *signedhalf, MintHalf: *minthalf, FanoutQ: *fanout,
 			Opts: h.HistOpts{Blocks: *blocks, MaxOpsPerBlk: *maxops, Boundary: *boundary, GovOps: *gov, NoBadValues: *nobad, TimeJumps: *jumps,
-				DisputeBias: *dbias, StakingBias: *sbias, BridgeBias: *bbias, MintInitEarly: *mintinit, ValStatus: *valstatus, Stories: *stories, Probe: *probe, ValsetBias: *vbias}, World: h.WorldOpts{RegisterOnlyFirst: *regone, Chain: h.ChainOpts{Signed: *signed, NumVals: *nvals}}})
+				DisputeBias: *dbias, StakingBias: *sbias, BridgeBias: *bbias, MintInitEarly: *mintinit, ValStatus: *valstatus, ValSlash: *valslash, Stories: *stories, Probe: *probe, ValsetBias: *vbias}, World: h.WorldOpts{RegisterOnlyFirst: *regone, Chain: h.ChainOpts{Signed: *signed, NumVals: *nvals}}})
 	default:
 		err = fmt.Errorf("unknown driver %q", os.Args[1])
 	}
